@@ -56,6 +56,10 @@ impl NonFungibleBurnable for ExplicitNft {}
 pub const N: usize = 6; // actors 0..5; index 6 is the contracts' admin (signs mints only)
 pub const ADMIN: usize = 6;
 pub const MAX_TTL: u32 = 200_000;
+/// long-horizon host: max_entry_ttl of about a year, so persistent / instance entries of the
+/// unmodified code (min_persistent_entry_ttl = max - 1) survive idle gaps of months
+pub const MAX_TTL_LONG: u32 = 6_312_000;
+pub const LEDGERS_PER_DAY: u32 = 17_280;
 pub const IDS_IN_BUCKET: u32 = stellar_tokens::non_fungible::consecutive::storage::IDS_IN_BUCKET as u32;
 pub const MAX_BATCH: u32 = stellar_tokens::non_fungible::consecutive::storage::MAX_TOKENS_IN_BATCH as u32;
 
@@ -85,6 +89,7 @@ pub struct Sim {
     pub fl: Flavour,
     pub now: u32,
     pub min_temp: u32,
+    pub max_ttl: u32,
 }
 
 /// merge `[lo, hi]` ranges: sorted, disjoint, non-adjacent
@@ -111,7 +116,10 @@ pub fn around(x: u32, w: u32) -> (u32, u32) {
 
 impl Sim {
     pub fn new(fl: Flavour, min_temp: u32, start: u32) -> Sim {
-        let e = new_env(start, min_temp, MAX_TTL);
+        Sim::with_ttl(fl, min_temp, start, MAX_TTL)
+    }
+    pub fn with_ttl(fl: Flavour, min_temp: u32, start: u32, max_ttl: u32) -> Sim {
+        let e = new_env(start, min_temp, max_ttl);
         // diagnostics off (`DiagnosticLevel::None` is the type's default): otherwise every failing
         // call externalizes all debug events so far and resolves a backtrace (~5 ms each)
         let _ = e.host().set_diagnostic_level(Default::default());
@@ -129,10 +137,10 @@ impl Sim {
             Flavour::Enum => e.register(ex_enum::ExampleContract, (uri, name, sym, admin)),
             Flavour::Cons => e.register(ex_cons::ExampleContract, (uri, name, sym, admin)),
         };
-        Sim { e, u, tok, fl, now: start, min_temp }
+        Sim { e, u, tok, fl, now: start, min_temp, max_ttl }
     }
     pub fn label(&self, what: &str) -> String {
-        format!("{} flavour={} min_temp={} start={}", what, self.fl.name(), self.min_temp, self.now)
+        format!("{} flavour={} min_temp={} start={} max_ttl={}", what, self.fl.name(), self.min_temp, self.now, self.max_ttl)
     }
     fn ad(&self, i: usize) -> Val {
         self.u.a(i).into_val(&self.e)
@@ -354,7 +362,7 @@ impl Sim {
 
     pub fn advance(&mut self, t: &mut Trace, n: u32, q: &[(u32, u32)], qa: &[u32]) {
         self.now += n;
-        set_ledger(&self.e, self.now, self.min_temp, MAX_TTL);
+        set_ledger(&self.e, self.now, self.min_temp, self.max_ttl);
         t.op(&format!("nft advance a=- id=0 n={} lu=0 auth=- q={} qa={}", n, show_ranges(q), join(qa)));
         let st = self.state(q, qa, &[]);
         t.obs(&format!("ok ret=- {} now={} dem=-", st, self.now));
